@@ -15,7 +15,7 @@ import subprocess
 from vlib import core
 from rs2v import consts_lite
 
-BINS = [b for b in ["h_outbound", "h_payflow"] if os.path.exists(os.path.join(core.HARNESS, "src", "bin", b + ".rs"))]
+BINS = [b for b in ["h_outbound", "h_payflow", "h_paysched"] if os.path.exists(os.path.join(core.HARNESS, "src", "bin", b + ".rs"))]
 LEVEL = "proof"
 MANIFEST = {
     "category": "proof",
@@ -390,6 +390,15 @@ class Judge:
         self.fails = []
         self.prev_state = []
         self.prev_queue = []
+        # ground truth about HTLCs, independent of what OutboundPayments believes: an HTLC whose send
+        # returned Ok or MonitorUpdateInProgress is committed to a channel and stays in flight until
+        # the channel delivers its fulfil or fail (the first claim / fail operation naming it)
+        self.ht = {}        # sp -> {"id", "life", "flight": bool}
+        self.lifeno = {}    # id -> number of entries created so far
+
+    def in_flight(self, pid, but=None):
+        return sorted(sp for sp, h in self.ht.items()
+                      if h["id"] == pid and h["flight"] and h["life"] == self.lifeno.get(pid, 0) and sp != but)
 
     def row(self, state, pid):
         for r in state:
@@ -419,6 +428,20 @@ class Judge:
                 bad("an entry was created for an id that was already present")
             if o[0] == 10:
                 self.life[o[1]] = {"terminal": None, "claimed": False}
+                self.lifeno[o[1]] = self.lifeno.get(o[1], 0) + 1
+        for o in outs:
+            if o[0] == 12:
+                self.ht[o[2]] = {"id": o[1], "life": self.lifeno.get(o[1], 0), "flight": o[6] in (0, 2)}
+        resolved_now = None
+        if op["k"] in ("claim", "fail") and op["sp"] in self.ht and self.ht[op["sp"]]["flight"]:
+            resolved_now = op["sp"]
+            h = self.ht[resolved_now]
+            if op["k"] == "claim" and h["life"] == self.lifeno.get(h["id"], 0):
+                lf0 = self.life.get(h["id"])
+                if lf0 is not None and lf0["terminal"] is None and not any(o[0] == 1 and o[1] == h["id"] for o in outs):
+                    bad("the fulfil of an in-flight HTLC of payment %d was settled but no PaymentSent was reported" % h["id"])
+                if lf0 is not None and lf0["terminal"] == "failed":
+                    bad("an HTLC of payment %d was fulfilled after PaymentFailed had been reported" % h["id"])
         claim_id = None
         if op["k"] == "claim":
             for o in outs:
@@ -460,6 +483,9 @@ class Judge:
                     bad("second terminal event (PaymentFailed after %s) within one lifetime of payment id %d" % (lf["terminal"], pid))
                 if lf["claimed"] or claim_id == pid:
                     bad("PaymentFailed although an HTLC of payment id %d was claimed in this lifetime" % pid)
+                fl = self.in_flight(pid, but=resolved_now if op["k"] == "fail" else None)
+                if fl:
+                    bad("PaymentFailed for payment %d while its HTLC(s) %s are still in flight (sent, or committed behind a monitor update)" % (pid, fl))
                 lf["terminal"] = "failed"
                 if pid in ids_after:
                     bad("PaymentFailed but the entry is still tracked (a later event can contradict it)")
@@ -518,6 +544,8 @@ class Judge:
                 if rb[1] == 0 and len(rb) == 13 and rb[0] not in answered:
                     if rb[0] in ids_after or not any(o[0] == 2 and o[1] == rb[0] for o in outs):
                         bad("drained Retryable payment %d got no PaymentFailed from check_retry_payments without a route" % rb[0])
+        if resolved_now is not None:
+            self.ht[resolved_now]["flight"] = False
         self.prev_state = state
         self.prev_queue = res.get("queue", [])
 
@@ -616,9 +644,21 @@ def functional(ctx, model_ok):
     dis = []
     if model_ok:
         exprs = ["run_show init [%s]" % "; ".join(coq_op(o) for o in ops) for ops, _ in seqs]
-        vals = ctx.coq_eval("corr_outbound_%d" % os.getpid(), COQ_IMPORTS, exprs, shards=min(16, len(exprs)), timeout=1500)
+        try:
+            vals = ctx.coq_eval("corr_outbound_%d" % os.getpid(), COQ_IMPORTS, exprs, shards=min(16, len(exprs)), timeout=1500)
+        except Exception as ex:
+            # the model could not be evaluated on these operations (e.g. the implementation produced
+            # something the op rendering does not cover): a broken correspondence, not a crash; the
+            # implementation-side judge above has already searched the same sequences
+            ctx.log("model evaluation failed:", str(ex)[-600:])
+            dis.append({"why": "model evaluation failed", "detail": str(ex)[-1500:]})
+            vals = []
         for si, ((ops, results), v) in enumerate(zip(seqs, vals)):
-            model = parse_coq_lll(v)
+            try:
+                model = parse_coq_lll(v)
+            except ValueError:
+                dis.append({"sequence": si, "why": "unparsable model output"})
+                continue
             for i, (op, res, m) in enumerate(zip(ops, results, model)):
                 cut = m.index([-3])
                 mo, ms = norm_outs(m[:cut], False), m[cut + 1:]
@@ -670,6 +710,148 @@ def e2e(ctx):
     return [r for r in recs if r.get("ok") is False]
 
 
+# ------------------------------------------------------------------ e2e tier 2: seeded random scheduler on real nodes (h_paysched)
+STALE_KEY = "C03:stale-manager-fails-settled-payment"
+
+DIRECTED = {
+    # one path behind an in-progress monitor update, the other path's first hop gone (both orders)
+    "mpp_inprogress_plus_failing_path_a": ["cfg 2 1 0 0 0", "persist 0 1", "disconnect 0 2", "sendmpp 3000", "persist 0 0", "pump", "fail", "pump"],
+    "mpp_inprogress_plus_failing_path_b": ["cfg 2 1 0 0 0", "persist 0 1", "disconnect 0 1", "sendmpp 700", "complete 0", "pump", "reconnect 0 1", "pump", "fail", "pump"],
+    "mpp_inprogress_plus_failing_path_claimed": ["cfg 2 0 1 0 0", "persist 0 1", "disconnect 0 2", "sendmpp 3000", "persist 0 0", "pump", "silence", "pump"],
+    # an add waits in the holding cell behind a monitor update and cannot be sent any more when it is freed
+    "holding_cell_add_freed_after_config_change": ["cfg 0 1 0 0 0", "persist 0 1", "send 5000 0", "send 0 0", "config 0 0 1 0", "persist 0 0", "pump", "claim", "pump"],
+    "holding_cell_add_freed_after_config_change_line": ["cfg 1 1 0 0 0", "persist 0 1", "send 4000 1", "send 0 1", "send 1 0", "config 0 0 1 0", "complete 0", "pump", "persist 0 0", "pump", "claim", "fail", "pump"],
+    # the HTLC is only in the previous (unrevoked) counterparty commitment when the channel closes with
+    # a commitment lacking it; the sender restarts before it polled its monitor
+    "htlc_only_in_prev_counterparty_commitment_reload": ["cfg 0 1 0 0 0", "send 5000 0", "pump", "fail", "deliver 0", "deliver 0", "deliver 0", "disconnect 0 1",
+                                                         "fclose 0 0", "snapshot", "freeze", "mine", "blocks 6", "reload 1", "pump"],
+    "htlc_only_in_prev_counterparty_commitment_reload_line": ["cfg 1 1 0 0 0", "send 5000 0", "pump", "fail", "pump", "send 3000 0", "pump", "fail", "deliver 0", "deliver 0", "deliver 0", "deliver 0", "deliver 0",
+                                                              "disconnect 0 1", "fclose 0 0", "snapshot", "freeze", "mine", "blocks 6", "reload 1", "reconnect 0 1", "pump"],
+    # plain restarts
+    "reload_with_payment_in_flight": ["cfg 1 1 0 0 0", "send 5000 1", "snapshot", "pump", "freeze", "reload 1", "reconnect 0 1", "pump", "claim", "pump"],
+    "reload_after_onchain_claim": ["cfg 0 1 0 0 0", "send 5000 0", "pump", "snapshot", "disconnect 0 1", "fclose 1 0", "claim", "freeze", "mine", "blocks 3", "mine", "reload 1", "pump"],
+}
+
+
+def gen_schedule(rng, nsteps):
+    topo = rng.choice([0, 1, 1, 2, 2])
+    legacy = 1 if rng.chance(7, 10) else 0
+    lines = ["cfg %d %d %d %d 1" % (topo, legacy, 1 if rng.chance(1, 3) else 0, rng.below(3))]
+    n = [2, 3, 4][topo]
+    reloads = 0
+    W = [("send", 14), ("sendmpp", 6 if topo == 2 else 0), ("persist", 8), ("complete", 5), ("deliver", 14), ("pump", 10), ("disconnect", 5),
+         ("reconnect", 7), ("config", 5), ("claim", 6), ("fail", 4), ("silence", 1), ("fclose", 4 if legacy else 0), ("mine", 4), ("blocks", 4), ("tick", 3), ("freeze", 1), ("unfreeze", 1), ("reload", 3)]
+    tot = sum(w for _, w in W)
+    for _ in range(nsteps):
+        r = rng.below(tot)
+        for name, w in W:
+            if r < w:
+                break
+            r -= w
+        if name == "send":
+            lines.append("send %d %d" % (rng.choice([0, 1, 300, rng.below(9000)]), rng.below(3)))
+        elif name == "sendmpp":
+            lines.append("sendmpp %d" % rng.below(4000))
+        elif name == "persist":
+            lines.append("persist %d %d" % (rng.choice([0, 0, rng.below(n)]), rng.below(2)))
+        elif name == "complete":
+            lines.append("complete %d" % rng.choice([0, rng.below(n)]))
+        elif name == "deliver":
+            lines.append("deliver %d" % rng.below(6))
+        elif name in ("disconnect", "reconnect"):
+            a = rng.below(n)
+            lines.append("%s %d %d" % (name, a, rng.below(n)))
+        elif name == "config":
+            lines.append("config %d %d %d %d" % (rng.choice([0, rng.below(n)]), rng.below(4), rng.below(3), rng.choice([0, 1, 1000, rng.below(6000000)])))
+        elif name in ("fclose", "snapcommit"):
+            lines.append("%s %d %d" % (name, rng.below(n), rng.below(4)))
+        elif name == "minesnap":
+            lines.append("minesnap %d" % rng.below(4))
+        elif name == "blocks":
+            lines.append("blocks %d" % rng.choice([0, 5, 6, rng.below(30)]))
+        elif name == "tick":
+            lines.append("tick %d" % rng.below(n))
+        elif name == "reload":
+            if reloads < 2:
+                reloads += 1
+                lines.append("reload %d" % rng.below(40))
+        else:
+            lines.append(name)
+    return lines
+
+
+def run_schedule(ctx, lines):
+    try:
+        p = subprocess.run([ctx.bin_path("h_paysched")], input="\n".join(lines) + "\n", stdout=subprocess.PIPE, stderr=subprocess.DEVNULL,
+                           universal_newlines=True, timeout=300, cwd=ctx.tmp)
+    except subprocess.TimeoutExpired:
+        return {"ok": False, "cat": "panic", "why": "schedule did not terminate", "step": -1}
+    rec, pan = None, None
+    for l in p.stdout.split("\n"):
+        if l.startswith('{"c03s":'):
+            try:
+                rec = json.loads(l)
+            except ValueError:
+                pass
+        elif l.startswith('{"c03s_panic":'):
+            pan = l[15:-2]
+    if rec is None:
+        return {"ok": False, "cat": "panic", "why": "process died: " + (pan or "no output")[:300], "step": -1}
+    if rec.get("panic") and pan and "harness or library assertion" in rec.get("why", ""):
+        rec["why"] += " | " + pan[:300]
+    return rec
+
+
+def shrink_schedule(ctx, lines, cat, why, budget=120):
+    """greedy line removal keeping the same failure class and message head"""
+    head = why[:50]
+    cur = list(lines)
+    i = len(cur) - 1
+    while i >= 1 and budget > 0:
+        cand = cur[:i] + cur[i + 1:]
+        budget -= 1
+        r = run_schedule(ctx, cand)
+        if not r.get("ok") and r.get("cat") == cat and r.get("why", "")[:50] == head:
+            cur = cand
+        i -= 1
+    return cur
+
+
+def sched_tier(ctx):
+    if not os.path.exists(ctx.bin_path("h_paysched")):
+        return [], []
+    from concurrent.futures import ThreadPoolExecutor
+    rng = ctx.rng.fork("sched")
+    n, steps = (150, 60) if ctx.tier == "quick" else (10000, 60)
+    jobs = [(name, lines) for name, lines in DIRECTED.items()]
+    for i in range(n):
+        r = rng.fork("s%d" % i)
+        jobs.append(("random", gen_schedule(r, 10 + r.below(steps - 9))))
+    with ThreadPoolExecutor(max_workers=core.NPROC) as ex:
+        results = list(ex.map(lambda j: run_schedule(ctx, j[1]), jobs))
+    hist, nsteps, npay, nterm = {}, 0, 0, [0, 0]
+    real, stale = [], []
+    for (name, lines), r in zip(jobs, results):
+        nsteps += len(lines)
+        for pmt in r.get("payments", []):
+            npay += 1
+            nterm[0] += pmt[2]
+            nterm[1] += pmt[3]
+        for l in lines[1:]:
+            k = l.split()[0]
+            hist[k] = hist.get(k, 0) + 1
+        if not r.get("ok"):
+            (stale if r.get("cat") == "stale" else real).append((name, lines, r))
+    ctx.coverage["sched_schedules"] = len(jobs)
+    ctx.coverage["sched_steps"] = nsteps
+    ctx.coverage["sched_action_histogram"] = hist
+    ctx.coverage["sched_payments"] = {"accepted": npay, "PaymentSent": nterm[0], "PaymentFailed": nterm[1]}
+    ctx.coverage["sched_stale_manager_class_hits"] = len(stale)
+    if jobs:
+        ctx.samples.append({"schedule": jobs[len(DIRECTED)][1][:12], "result": results[len(DIRECTED)]})
+    return real, stale
+
+
 def run(ctx):
     ok_build, out = ctx.build_harness(BINS)
     if not ok_build:
@@ -698,8 +880,9 @@ def run(ctx):
     ctx.assumptions += ["HTLCSource (payment id, session priv, path) travels unchanged with each HTLC", "Retry::Timeout / BOLT12 pre-HTLC states not modelled"]
     seqs, dis, judge_fails, idem = functional(ctx, okm)
     e2e_fails = e2e(ctx)
+    sched_real, sched_stale = sched_tier(ctx)
     nfun = ctx.coverage.get("functional_ops", 0)
-    ctx.coverage["evaluations"] = nfun + ctx.coverage.get("e2e_scenarios", 0)
+    ctx.coverage["evaluations"] = nfun + ctx.coverage.get("e2e_scenarios", 0) + ctx.coverage.get("sched_steps", 0)
     ctx.coverage["distinct_nontrivial"] = ctx.coverage.get("functional_distinct_signatures", 0) + len(ctx.coverage.get("e2e_scenario_histogram", {}))
     ctx.coverage["rule"] = ("functional: one evaluation = one operation executed on the real OutboundPayments and on the model with outputs and full state compared; "
                             "distinct non-trivial = distinct (operation kind, set of output kinds, set of entry kinds in the resulting state) signatures; "
@@ -720,12 +903,26 @@ def run(ctx):
             ctx.violation("end-to-end payment scenario violates C03: " + f.get("why", ""),
                           {"broken": "e2e judge (h_payflow)", "scenario": f, "replay_cmd": "%s replay %s" % (ctx.bin_path("h_payflow"), f.get("params", ""))}, True,
                           key="e2e:" + f.get("scenario", "?") + ":" + f.get("why", ""))
+    for (name, lines, r) in sched_real[:2]:
+        small = lines
+        if r.get("cat") == "c03":
+            try:
+                small = shrink_schedule(ctx, lines, r.get("cat"), r.get("why", ""))
+            except Exception:
+                small = lines
+        ctx.violation(("scheduled run on real nodes violates C03: " if r.get("cat") == "c03" else "scheduled run on real nodes died (library assertion or harness): ") + r.get("why", "")[:300],
+                      {"broken": "e2e scheduler judge (h_paysched)", "family": name, "schedule": small, "result": r,
+                       "replay_cmd": "printf '<schedule lines>' | %s" % ctx.bin_path("h_paysched")}, r.get("cat") == "c03")
+    for (name, lines, r) in sched_stale[:1]:
+        ctx.violation("scheduled run on real nodes: " + r.get("why", "")[:300],
+                      {"broken": "e2e scheduler judge (h_paysched), stale-manager class", "family": name, "schedule": lines, "result": r,
+                       "replay_cmd": "printf '<schedule lines>' | %s" % ctx.bin_path("h_paysched")}, True, key=STALE_KEY)
     broken = []
     if not proved:
         broken.append({"obligation": "Coq proof of Props/C03.v", "detail": getattr(ctx, "proof_failure", {"where": gen_err})})
     if dis:
         broken.append({"correspondence": "h_outbound vs Model/Outbound.v", "first_disagreements": dis[:3], "n": len(dis)})
-    if broken and not judge_fails and not e2e_fails:
+    if broken and not judge_fails and not e2e_fails and not sched_real:
         ctx.violation("C03 no longer shown: " + ("proof" if not proved else "model/implementation correspondence") + " broken",
                       {"broken": broken, "search": "implementation judge over %d operations in %d sequences + e2e scenarios found no failing input" % (nfun, ctx.coverage.get("functional_sequences", 0))}, False)
     _cleanup_eval(ctx)
